@@ -110,9 +110,11 @@ CLAIMS = {
          "centre on that pixel, orientation preserved, zero elsewhere (all odd stamp sizes, all positions; zero-padded bilinear interpolation at "
          "integers reads the array entry), the unrepaired addressing provably violates it; a Fourier/hybrid point source at an integer pixel is an "
          "exact whole-pixel shift of the one at the origin for every PSF transform (DFT shift theorem proved termwise on the synthesis sum); a 1×1 "
-         "unit PSF has transform ≡ 1 whatever the ramp constant and returns the Fourier-space scene unchanged; PSF_fft(0,0) = ΣPSF; conv_img is "
-         "linear. Not proved (classical, validated numerically at 1e-9 by the tie and by the oracle against direct spatial convolution): that the "
-         "DFT pipeline equals circular convolution with the re-centred stamp. Tie: PSF_fft element-wise, conv_img on random images, point sources of "
+         "unit PSF has transform ≡ 1 whatever the ramp constant and returns both the Fourier-space scene and the intrinsic image unchanged; "
+         "PSF_fft(0,0) = ΣPSF; conv_img is linear; and the CONVOLUTION THEOREM for the code-level pipeline: for odd stamps (2h+1)² and π in the ramps, "
+         "irfft2(rfft2(I)·PSF_fft) with the c2r half-plane weights equals Σ PSF[i,j]·I[(r+h−i) mod N, (c+h−j) mod N] for every N, image and stamp "
+         "(complete sums over roots of unity, reflection of the half plane), hence irfft2∘rfft2 = id on real images and the pixel renderer's scene is "
+         "exactly that convolution. Not proved: even-sized stamps (half-pixel Fourier shift; validated by the tie at 1e-9 and the centroid clause). Tie: PSF_fft element-wise, conv_img on random images, point sources of "
          "all renderers on integer/fractional positions, odd/even/non-square/1×1 stamps. Oracle: the property's embedded-stamp (2e-5), centroid "
          "(0.02 px), unit-PSF and direct-convolution criteria in float32."),
    note=NOTE + "C03: known finding recorded (Fourier/hybrid point sources with PSF stamps that are not band-limited ring and miss the centroid tolerance); map_coordinates modelled as zero-padded bilinear interpolation.",
